@@ -66,7 +66,45 @@ def type_laws():
             bad.append({'law': 'strict<=medium<=permissive', 'types': [a, c]})
         if a == c and not all(r.values()):
             bad.append({'law': 'reflexive', 'types': [a, c]})
+        # what the levels mean (the families the library's own documentation / test suite names): medium accepts the same
+        # family at another width or unit, and object against string / boolean / datetime; permissive also any two of
+        # int / float / bool.  Families are decided here by pandas' own dtype predicates, not by the library.
+        fa, fc = family(a), family(c)
+        if fa and fc and a != c:
+            medium = fa == fc or (fa == 'object' and fc in ('string', 'bool', 'datetime')) \
+                or (fc == 'object' and fa in ('string', 'bool', 'datetime'))
+            permissive = medium or (fa in ('int', 'float', 'bool') and fc in ('int', 'float', 'bool'))
+            if r['medium'] != medium:
+                bad.append({'law': 'medium-level-families', 'types': [a, c], 'families': [fa, fc], 'got': r['medium']})
+            if r['permissive'] != permissive:
+                bad.append({'law': 'permissive-level-families', 'types': [a, c], 'families': [fa, fc], 'got': r['permissive']})
     return n, bad
+
+
+def family(name):
+    import pandas as pd
+    from pandas.api import types as pt
+    if name == 'str':
+        return None          # pandas 3's default string dtype: not among the documented families (see known findings)
+    try:
+        dt = pd.api.types.pandas_dtype(name)
+    except Exception:
+        return None
+    if pt.is_bool_dtype(dt):
+        return 'bool'
+    if pt.is_unsigned_integer_dtype(dt):
+        return None          # unsigned widths are not among the documented families
+    if pt.is_integer_dtype(dt):
+        return 'int'
+    if pt.is_float_dtype(dt):
+        return 'float'
+    if pt.is_datetime64_any_dtype(dt):
+        return 'datetime'
+    if name == 'string' or isinstance(dt, pd.StringDtype):
+        return 'string'
+    if name == 'object':
+        return 'object'
+    return None
 
 
 def columns():
